@@ -68,16 +68,9 @@ def run(cx):
         for fn, st in (("client::Client::handle_events", r"arg1\.state@Active\.0"), ("server::Server::handle_events", r".*@Active\.0")):
             b = R.body(fn)
             fa = cx.fa(b)
-            n = 0
-            for loc, lab in event_pushes(b, r"Error\{.*Timeout"):
-                alts = fa.at(loc)
-                act, _ = dnf_holds(alts, [[r"is\(.*state,Active\)"]])
-                if not act:
-                    continue
-                n += 1
-                cx.guard(inst, b, [(loc, lab)], [[r"le\(%s\.timeout_time_ms,arg2\)" % st]], construct="active Error(Timeout)",
-                         why="a connection may only be reported timed out once now >= its deadline")
-            if n == 0:
+            seen = cx.guard_cases(inst, b, event_pushes(b, r"Error\{.*Timeout"), [("Active", r"is\(.*state,Active\)", [r"le\(%s\.timeout_time_ms,arg2\)" % st])],
+                                  "active Error(Timeout)", why="a connection may only be reported timed out once now >= its deadline", fa=fa)
+            if "Active" not in seen:
                 inst.violation(b.path, "active timeout", "no Error(Timeout) push in the Active arm of %s (anchor)" % fn)
         order = {
             "client::Client::step": ["Client::flush_if_active", "Client::handle_frames", "Client::handle_events", "Client::step_if_active"],
@@ -129,15 +122,11 @@ def run(cx):
             tms = [l for l, node, ps in b.field_writes(r"[\w.@]+\.resend_time_ms") if re.fullmatch(rx_comm("add", "arg2", re.escape(const)), show(b.rvalue_expr(node["rv"])))]
             cx.followed_by(inst, b, sends, decs, "resend without count decrement in " + arm, "resend_count -= 1")
             cx.followed_by(inst, b, sends, tms, "resend without rescheduling in " + arm, "resend_time_ms = now + interval")
-            tos = []
-            for loc, lab in event_pushes(b, r"Error\{.*Timeout"):
-                good, _ = dnf_holds(fa.at(loc), [[r"is\(arg1\.state,%s\)" % arm]])
-                if good:
-                    tos.append((loc, "Error(Timeout) in %s" % arm))
-            if not tos:
+            seen = cx.guard_cases(inst, b, event_pushes(b, r"Error\{.*Timeout"),
+                                  [(arm, r"is\(arg1\.state,%s\)" % arm, [r"eq\(0,arg1\.state@%s\.0\.resend_count\)" % arm, r"le\(arg1\.state@%s\.0\.resend_time_ms,arg2\)" % arm])],
+                                  "Error(Timeout)", why="the attempt may be abandoned only after all retries are used and the last interval elapsed", fa=fa)
+            if arm not in seen:
                 inst.violation(b.path, "timeout in " + arm, "no Error(Timeout) in the %s arm (anchor)" % arm)
-            cx.guard(inst, b, tos, [[r"eq\(0,[\w.@]+\.resend_count\)", r"le\([\w.@]+\.resend_time_ms,arg2\)"]], construct="Error(Timeout) in " + arm,
-                     why="the attempt may be abandoned only after all retries are used and the last interval elapsed")
         # initial values (client)
         for fn, adt, cnt, itv in (("client::Client::connect", "PendingState", "client::HANDSHAKE_RESEND_COUNT", "client::HANDSHAKE_RESEND_INTERVAL_MS"),
                                   ("client::Client::step_if_active", "ClosingState", "client::DISCONNECT_RESEND_COUNT", "client::DISCONNECT_RESEND_INTERVAL_MS"),
